@@ -573,14 +573,14 @@ func (k *Kernel) trace(format string, a ...any) {
 	h *= 1099511628211
 	k.traceHash = h
 	if k.KeepTrace {
-		k.traceLines = append(k.traceLines, strconv.FormatUint(k.step, 10) + "\t" + k.Elapsed().String() + "\t" + s)
+		k.traceLines = append(k.traceLines, strconv.FormatUint(k.step, 10)+"\t"+k.Elapsed().String()+"\t"+s)
 	} else {
 		// keep a short tail for diagnostics
 		if len(k.traceLines) >= 400 {
 			copy(k.traceLines, k.traceLines[200:])
 			k.traceLines = k.traceLines[:200]
 		}
-		k.traceLines = append(k.traceLines, strconv.FormatUint(k.step, 10) + "\t" + k.Elapsed().String() + "\t" + s)
+		k.traceLines = append(k.traceLines, strconv.FormatUint(k.step, 10)+"\t"+k.Elapsed().String()+"\t"+s)
 	}
 }
 
